@@ -134,3 +134,31 @@ Definition chk_planner (cases : list (list kind * list dpinfo * (bool * nat))) :
      end) O cases.
 Definition chk_planner_ok (cases : list (list kind * list dpinfo * (bool * nat))) : bool :=
   match chk_planner cases with [] => true | _ => false end.
+
+(* ---------- chains of DataProcessors with Rewind (Pipe.v level C) ---------- *)
+(* the chain gives [expect] for every listed batching and EOF convention; [sizes] of the
+   non-empty outputs of the successive Fetch calls of the last DataProcessor as observed *)
+Definition chain_run (stages : list rstage) (ew : bool) (bs : list batch) : option (list batch) :=
+  stream_batches (build_chain (src_stream ew bs) stages).
+Definition chk_rewound_gen (eq : batch -> batch -> bool) (stages : list rstage) (tbl : batch)
+  (cases : list (list nat * bool * list nat)) (expect : batch) : bool :=
+  forallb (fun c => let '(sizes, ew, obs) := c in
+             match chain_run stages ew (cut_at sizes tbl) with
+             | Some l => eq (concat l) expect && list_eqb Nat.eqb (nonzero (map (@length row) l)) (nonzero obs)
+             | None => false
+             end) cases.
+Definition chk_rewound := chk_rewound_gen batch_eqb.
+Definition chk_rewound_perm := chk_rewound_gen batch_perm_eqb.
+
+(* the IQR handed out twice (known defect): tail n, then the row function f as observed on single
+   rows, then a two-pass command *)
+Definition f1_of_table (tbl : list (row * list row)) (r : row) : row :=
+  match f_of_table tbl r with x :: _ => x | [] => r end.
+Definition chk_alias (n : N) (ftbl : list (row * list row)) (t : twopass) (tbl : batch)
+  (cuts : list (list nat)) (expect : batch) : bool :=
+  forallb (fun sizes =>
+             batch_eqb (alias_two_pass (f1_of_table ftbl) t (run (tail_cmd n) (cut_at sizes tbl))) expect) cuts.
+
+(* stats without a BY clause in front of a two-pass command (known defect) *)
+Definition chk_noby (c : command) (t : twopass) (tbl : batch) (expect : batch) : bool :=
+  batch_eqb (stats_noby_two_pass c t tbl) expect.
